@@ -56,17 +56,17 @@ func (ICS20Scenario) Generate(rng *rand.Rand, focus, tier string) kernel.Plan {
 }
 
 type icsWorld struct {
-	rec      *kernel.Rec
-	t        *testing.T
-	coord    *ibctesting.Coordinator
-	a, b     *ibctesting.TestChain
-	path     *ibctesting.Path
-	bApp     *app.Teleport
-	voucher  string // ibc/HASH of A's bond denom on B
-	userB    sdk.AccAddress
+	rec        *kernel.Rec
+	t          *testing.T
+	coord      *ibctesting.Coordinator
+	a, b       *ibctesting.TestChain
+	path       *ibctesting.Path
+	bApp       *app.Teleport
+	voucher    string // ibc/HASH of A's bond denom on B
+	userB      sdk.AccAddress
 	registered bool
-	pairOn   bool
-	aggOn    bool
+	pairOn     bool
+	aggOn      bool
 }
 
 func (ICS20Scenario) Execute(p kernel.Plan, rec *kernel.Rec) {
